@@ -79,14 +79,24 @@ static void put_result(bool r, int e) {
     if (r) printf("true"); else printf("false %s", errname(e));
 }
 
+/* per-operation watchdog: an endless loop inside the library is a dead harness, not a stuck check */
+static void on_alarm(int sig) {
+    (void) sig;
+    static const char msg[] = "TIMEOUT: one operation ran for more than 8 s (endless loop in the library?)\n";
+    if (write(2, msg, sizeof(msg) - 1) < 0) { }
+    verif_flush_cb(); _exit(96);
+}
+
 int main(void) {
     char *line = NULL; size_t cap = 0; ssize_t len;
     harness_init();
+    signal(SIGALRM, on_alarm);
     T = qhashtbl(0, 0);
     memset(&CUR, 0, sizeof(CUR));
     while ((len = getline(&line, &cap, stdin)) > 0) {
         char *w[MAXW]; int nw = split_words(line, w);
         if (nw == 0) continue;
+        alarm(8);
         const char *op = w[0];
         bytes_t a = {0, 0}, d = {0, 0};
         char *name = NULL;
@@ -222,6 +232,41 @@ int main(void) {
                 show_next(r, errno, newmem);
                 if (!r) break;
             }
+        } else if (!strcmp(op, "inv") && nw == 1) {
+            /* every call with a documented-invalid argument (NULL name, NULL data, NULL obj) on the
+             * CURRENT table: result:errno per call; nothing may change (the dump follows) */
+            static const char key[] = "invkey";
+            size_t sz = 99; int e[24]; int r[24]; int i = 0;
+            aw_arm(0, 0);
+            errno = 0; r[i] = T->put(T, NULL, "v", 2); e[i++] = errno;
+            errno = 0; r[i] = T->put(T, key, NULL, 2); e[i++] = errno;
+            errno = 0; r[i] = T->put(T, NULL, NULL, 0); e[i++] = errno;
+            errno = 0; r[i] = T->putstr(T, NULL, "v"); e[i++] = errno;
+            errno = 0; r[i] = T->putstr(T, key, NULL); e[i++] = errno;
+            errno = 0; r[i] = T->putstrf(T, NULL, "%s", "v"); e[i++] = errno;
+            errno = 0; r[i] = T->putint(T, NULL, 7); e[i++] = errno;
+            errno = 0; r[i] = T->get(T, NULL, &sz, false) != NULL; e[i++] = errno;
+            errno = 0; r[i] = T->get(T, NULL, &sz, true) != NULL; e[i++] = errno;
+            errno = 0; r[i] = T->get(T, NULL, NULL, true) != NULL; e[i++] = errno;
+            errno = 0; r[i] = T->getstr(T, NULL, false) != NULL; e[i++] = errno;
+            errno = 0; r[i] = T->getstr(T, NULL, true) != NULL; e[i++] = errno;
+            errno = 0; r[i] = T->getint(T, NULL) != 0; e[i++] = errno;
+            errno = 0; r[i] = T->remove(T, NULL); e[i++] = errno;
+            errno = 0; r[i] = T->getnext(T, NULL, false); e[i++] = errno;
+            errno = 0; r[i] = T->getnext(T, NULL, true); e[i++] = errno;
+            errno = 0; r[i] = T->debug(T, NULL); e[i++] = errno;          /* documented: EIO */
+            printf("inv");
+            for (int j = 0; j < i; j++) printf(" %d:%s", r[j], e[j] == EIO ? "EIO" : errname(e[j]));
+            printf(" sz=%zu", sz);
+        } else if (!strcmp(op, "lock") && nw == 1) {
+            /* the lock / unlock / size methods through the method pointers; with QHASHTBL_THREADSAFE the
+             * mutex is recursive: the methods called inside keep working */
+            T->lock(T);
+            T->lock(T);                       /* nested: balanced below */
+            size_t n1 = T->size(T);
+            T->unlock(T);
+            T->unlock(T);
+            printf("locked size %zu", n1);
         } else if (!strcmp(op, "end") && nw == 1) {
             /* C11: once the container is released every block it allocated is freed;
              * C12: the copies handed out must have survived everything including the release */
